@@ -521,14 +521,19 @@ Definition chunked_tail (e : env) (a : asset) (c : cfg) (r : arep) (m : meta) (s
   if String.eqb (path_ext segPart) ".jpg" then e500 else
   let atoMS := f_to_int (PrimFloat.mul (c_ato c) f_1000) in
   let chunkDur := Z.quot (i64 (i64 (a_segDurMS a - atoMS) * r_ts r)) 1000 in
-  if u32 chunkDur =? 0 then HPanic "app.chunkSegment: integer divide by zero" else
+  if negb (fx_chunk_cap fx) && (u32 chunkDur =? 0) then HPanic "app.chunkSegment: integer divide by zero" else
   match encrypt_frags e c r with
   | Ret x => x
   | Cont _ =>
     if r_ts r =? 0 then HPanic "app.writeChunkedSegment: integer divide by zero" else
     (* so.meta is in the timescale of the representation (audio: converted from the reference) *)
     let scale x := if (m_ts m =? r_ts r) || (m_ts m =? 0) then x else Z.quot (x * r_ts r) (m_ts m) in
-    let endTicks := i64 (scale (i64 (m_time m)) + c_startS c * r_ts r + scale (m_dur m)) in
+    (* chunks end when the accumulated sample duration reaches a multiple of chunkDur; a last
+       partial chunk is given the duration chunkDur (not its own), so for chunkDur > 0 the last
+       chunk becomes available at about ceil(dur / chunkDur) * chunkDur after the segment start *)
+    let durT := scale (m_dur m) in
+    let total := if 0 <? chunkDur then ((durT + chunkDur - 1) / chunkDur) * chunkDur else durT in
+    let endTicks := i64 (scale (i64 (m_time m)) + c_startS c * r_ts r + total) in
     let availMS := Z.quot (i64 (endTicks * 1000)) (r_ts r) in
     if hang_ms <? availMS - nowMS then HHang "app.writeChunkedSegment: sleep" else ok200
   end.
